@@ -107,7 +107,12 @@ func (w *c09World) opDeposit() {
 				if n, sq, ok := e.L2.AccNumSeq(u.Addr); ok {
 					msgs := []sdk.Msg{opchildtypes.NewMsgInitiateTokenWithdrawal(u.String(), "l1hookrecipient", sdk.NewCoin(l2d, math.NewInt(1)))}
 					hook = "withdraw"
-					switch w.rng.Intn(3) {
+					switch w.rng.Intn(4) {
+					case 3:
+						// a single message whose handler fails only after it has burned and taken a sequence: a withdrawal
+						// of a native token the recipient holds. The hook fails as a whole: nothing burned, no sequence taken
+						msgs = []sdk.Msg{opchildtypes.NewMsgInitiateTokenWithdrawal(u.String(), "l1hookrecipient", sdk.NewCoin("unative", math.NewInt(7)))}
+						hook = "withdraw-native-then-fail"
 					case 0:
 						msgs = append(msgs, banktypes.NewMsgSend(u.Addr, e.Users[0].Addr, sdk.NewCoins(sdk.NewCoin(l2d, math.NewInt(1<<62)))))
 						hook = "withdraw-then-fail"
